@@ -263,11 +263,73 @@ Definition render_source_as_enum_variant_match_arm (fs : list field) (source : o
               end
   end.
 
+(* ---- provide() ---- *)
+
+(* the names given to the bindings of a provide arm, in the order of matcher's `bindings` *)
+Inductive binder := BSource | BBacktrace.
+
+Inductive provide_code :=
+| NoProvide                                  (* no `fn provide` / no arm for the variant *)
+| ProvideMembers (backtrace_ref : option nat) (source_fwd : option nat)
+    (* struct: `request.provide_ref::<Backtrace>(&self.<m>)` for backtrace_ref = Some m, then
+       `Error::provide(&self.<m'>, request)` for source_fwd = Some m' (members by all-space position) *)
+| ProvideArm (pat : pattern) (names : list binder).
+    (* `V(pat) => { [provide_ref(backtrace);] [Error::provide(source, request);] }`: the first
+       statement is present iff a binding is called `backtrace`, the second iff one is called `source` *)
+
+Definition member_at (fs : list field) (k : nat) : res nat :=
+  match nth_error (members fs) k with Some m => Ok m | None => Panic end.
+Definition field_index_at (fs : list field) (k : nat) : res nat :=
+  match nth_error (enabled_fields_indexes fs) k with Some j => Ok j | None => Panic end.
+
+(* error.rs:222-250 render_provide_as_struct *)
+Definition render_provide_as_struct (fs : list field) (source backtrace : option nat)
+  : res provide_code :=
+  match backtrace with
+  | None => Ok NoProvide                                              (* `self.backtrace?` *)
+  | Some b =>
+    res_bind (match source with                                      (* source_provider *)
+              | Some s => res_bind (member_at fs s) (fun m => Ok (Some m))
+              | None => Ok None
+              end) (fun source_provider =>
+    res_bind (match source with                                      (* backtrace_provider *)
+              | Some s => if Nat.eqb s b then Ok None
+                          else res_bind (member_at fs b) (fun m => Ok (Some m))
+              | None => res_bind (member_at fs b) (fun m => Ok (Some m))
+              end) (fun backtrace_provider =>
+    Ok (ProvideMembers backtrace_provider source_provider)))
+      (* `(source_provider.is_some() || backtrace_provider.is_some()).then(..)` is always `Some`
+         here: without a source the backtrace provider exists *)
+  end.
+
+(* error.rs:252-297 render_provide_as_enum_variant_match_arm *)
+Definition render_provide_as_enum_variant_match_arm (fs : list field) (source backtrace : option nat)
+  : res provide_code :=
+  match backtrace with
+  | None => Ok NoProvide
+  | Some b =>
+    match source with
+    | Some s =>
+      if Nat.eqb s b then
+        res_bind (field_index_at fs s) (fun js =>
+        Ok (ProvideArm (matcher (length fs) [js]) [BSource]))
+      else
+        res_bind (field_index_at fs s) (fun js =>
+        res_bind (field_index_at fs b) (fun jb =>
+        Ok (ProvideArm (matcher (length fs) [js; jb]) [BSource; BBacktrace])))
+    | None =>
+      res_bind (field_index_at fs b) (fun jb =>
+      Ok (ProvideArm (matcher (length fs) [jb]) [BBacktrace]))
+    end
+  end.
+
 (* the whole expansion for one struct / one enabled variant *)
 Record expansion := mkExpansion {
   x_sel : option nat;           (* ParsedFields::source (ENABLED space) *)
   x_code : source_code;         (* what `source()` does for this struct / variant *)
-  x_bound : option nat }.       (* all-space position of the field whose type is bounded *)
+  x_bound : option nat;         (* all-space position of the field whose type is bounded *)
+  x_bsel : option nat;          (* ParsedFields::backtrace (ENABLED space) *)
+  x_provide : provide_code }.   (* what `provide()` does for this struct / variant *)
 
 (* error.rs:111-121 render_struct, and the body of the loop of render_enum (:137-156) *)
 Definition expand (k : kind) (sh : shape) (fs : list field) : res expansion :=
@@ -276,7 +338,11 @@ Definition expand (k : kind) (sh : shape) (fs : list field) : res expansion :=
             | Struct => render_source_as_struct fs (p_source p)
             | Variant => render_source_as_enum_variant_match_arm fs (p_source p)
             end) (fun code =>
-  Ok (mkExpansion (p_source p) code (p_bound p)))).
+  res_bind (match k with
+            | Struct => render_provide_as_struct fs (p_source p) (p_backtrace p)
+            | Variant => render_provide_as_enum_variant_match_arm fs (p_source p) (p_backtrace p)
+            end) (fun provide =>
+  Ok (mkExpansion (p_source p) code (p_bound p) (p_backtrace p) provide)))).
 
 (* first position of the binding `source` (binding 0) in a pattern *)
 Fixpoint binding_position (pat : pattern) : option nat :=
@@ -295,6 +361,39 @@ Definition source_returns (c : source_code) : option nat :=
   end.
 
 Definition returned_field (x : expansion) : option nat := source_returns (x_code x).
+
+(* first position of the k-th binding in a pattern *)
+Fixpoint binding_position_of (k : nat) (pat : pattern) : option nat :=
+  match pat with
+  | [] => None
+  | b :: r => if match b with Some k' => Nat.eqb k' k | None => false end then Some 0
+              else option_map S (binding_position_of k r)
+  end.
+Definition binder_eqb (a b : binder) : bool :=
+  match a, b with BSource, BSource | BBacktrace, BBacktrace => true | _, _ => false end.
+Fixpoint binder_index (b : binder) (names : list binder) : option nat :=
+  match names with
+  | [] => None
+  | n :: r => if binder_eqb n b then Some 0 else option_map S (binder_index b r)
+  end.
+Definition binder_field (pat : pattern) (names : list binder) (b : binder) : option nat :=
+  match binder_index b names with
+  | Some k => binding_position_of k pat
+  | None => None
+  end.
+
+(* Layer-2 semantics of provide(): (field handed to `provide_ref::<Backtrace>`, field whose own
+   `provide` is forwarded to), all-space positions *)
+Definition provide_returns (c : provide_code) : option nat * option nat :=
+  match c with
+  | NoProvide => (None, None)
+  | ProvideMembers b s => (b, s)
+  | ProvideArm pat names => (binder_field pat names BBacktrace, binder_field pat names BSource)
+  end.
+Definition provided (x : expansion) : option nat * option nat := provide_returns (x_provide x).
+
+(* the position among ALL fields of the k-th enabled field *)
+Definition to_all (fs : list field) (k : nat) : nat := nth k (enabled_fields_indexes fs) 0.
 
 (* ------------------------------------------------------------------ error.rs : whole enum *)
 
@@ -359,6 +458,48 @@ Fixpoint enum_bounds_from (i : nat) (vs : list variant) : list (nat * nat) :=
                    end
          | _ => enum_bounds_from (S i) r
          end
+  end.
+
+(* error.rs:152-154 + :159-176: the provide arms of the enabled variants and the same `render`
+   closure (`_ => ()` iff there is an arm and fewer arms than ALL variants) *)
+Fixpoint render_enum_provide_arms (i : nat) (vs : list variant) : res (list (nat * provide_code)) :=
+  match vs with
+  | [] => Ok []
+  | v :: r =>
+    if v_ignore v then render_enum_provide_arms (S i) r
+    else
+      res_bind (expand Variant (v_shape v) (v_fields v)) (fun x =>
+      res_bind (render_enum_provide_arms (S i) r) (fun arms =>
+      Ok (match x_provide x with
+          | NoProvide => arms
+          | c => (i, c) :: arms
+          end)))
+  end.
+Inductive enum_provide_fn :=
+| NoProvideFn
+| MatchSelfProvide (arms : list (nat * provide_code)) (wildcard : bool).
+Definition render_enum_provide (vs : list variant) : res enum_provide_fn :=
+  res_bind (render_enum_provide_arms 0 vs) (fun arms =>
+  Ok (match arms with
+      | [] => NoProvideFn
+      | _ :: _ => MatchSelfProvide arms (Nat.ltb (length arms) (length vs))
+      end)).
+Definition provide_covers (arms : list (nat * provide_code)) (k : nat) : bool :=
+  existsb (fun a => Nat.eqb (fst a) k) arms.
+Definition provide_match_exhaustive (f : enum_provide_fn) (nvariants : nat) : bool :=
+  match f with
+  | NoProvideFn => true
+  | MatchSelfProvide arms wildcard => wildcard || forallb (provide_covers arms) (seq 0 nvariants)
+  end.
+Fixpoint enum_provide_returns (arms : list (nat * provide_code)) (k : nat) : option nat * option nat :=
+  match arms with
+  | [] => (None, None)
+  | (i, c) :: r => if Nat.eqb i k then provide_returns c else enum_provide_returns r k
+  end.
+Definition enum_provide_fn_returns (f : enum_provide_fn) (k : nat) : option nat * option nat :=
+  match f with
+  | NoProvideFn => (None, None)
+  | MatchSelfProvide arms _ => enum_provide_returns arms k
   end.
 
 (* Layer-2 semantics of the emitted `match self`: every arm pattern `E::Vi(..)` consists of bindings
@@ -464,6 +605,46 @@ Definition documented_source_among (sh : shape) (c : list (nat * field)) : doc (
 Definition documented_source (sh : shape) (fs : list field) : doc (option nat) :=
   documented_source_among sh (considered fs).
 
+(* "When and how does it derive `provide()`?" (impl/doc/error.md):
+     3. one of the fields is annotated with `#[error(backtrace)]`: that field;
+     1. named fields and one of them is called `backtrace`: that field;
+     2. tuple and the type of exactly one of the fields is called `Backtrace`: that field;
+   `#[error(not(backtrace))]` excludes a field, `#[error(ignore)]` fields are not looked at.
+   Reading fixed where the text is silent: with named fields a field whose TYPE is called
+   `Backtrace` is a candidate too (pinned by tests/error/nightly:
+   named_implicit_backtrace_by_field_type). *)
+Definition backtrace_candidate (sh : shape) (f : field) : bool :=
+  is_none (f_backtrace f) &&
+  match sh with
+  | Named => name_is id_backtrace f || f_ty_backtrace f
+  | Unnamed => f_ty_backtrace f
+  end.
+Definition documented_backtrace_among (sh : shape) (c : list (nat * field)) : doc (option nat) :=
+  match filter (fun p => marked_backtrace (snd p)) c with
+  | _ :: _ :: _ => Ambiguous
+  | [p] => Sel (Some (fst p))
+  | [] => pick (filter (fun p => backtrace_candidate sh (snd p)) c)
+  end.
+Definition documented_backtrace (sh : shape) (fs : list field) : doc (option nat) :=
+  documented_backtrace_among sh (considered fs).
+
+(* what provide() offers (doc + the repository's nightly tests): nothing without a backtrace
+   field; otherwise the backtrace field by reference - unless it IS the source, whose own
+   `provide` then supplies it ("backtrace from source") - and the source's `provide` is forwarded *)
+Definition opt_nat_eqb (a b : option nat) : bool :=
+  match a, b with
+  | Some x, Some y => Nat.eqb x y
+  | None, None => true
+  | _, _ => false
+  end.
+Definition documented_provide (sh : shape) (fs : list field) : doc (option nat * option nat) :=
+  match documented_backtrace sh fs, documented_source sh fs with
+  | Ambiguous, _ => Ambiguous
+  | _, Ambiguous => Ambiguous
+  | Sel None, Sel _ => Sel (None, None)
+  | Sel (Some b), Sel s => Sel (if opt_nat_eqb s (Some b) then None else Some b, s)
+  end.
+
 (* ------------------------------------------------------------------ vocabulary of the theorems *)
 
 Definition insert_at {A} (k : nat) (x : A) (l : list A) : list A := firstn k l ++ x :: skipn k l.
@@ -472,6 +653,143 @@ Definition doc_map {A B} (g : A -> B) (d : doc (option A)) : doc (option B) :=
   match d with Sel o => Sel (option_map g o) | Ambiguous => Ambiguous end.
 
 Definition no_ignored (fs : list field) : bool := negb (existsb f_ignore fs).
+
+(* ------------------------------------------------------------------ utils.rs : types *)
+
+(* The part of `syn::Type` that error.rs / utils.rs look at.  A field of the selection model above
+   is the abstraction of a concrete field: `f_ty_backtrace` and `f_ty_generic` are computed from the
+   field's type by the two functions below ([abstract_field]). *)
+Inductive ty :=
+| TyPath (qself : option ty) (segs : list seg)        (* Type::Path, `<Q as ..>::a::b<..>`          *)
+| TyRef (elem : ty)                                    (* Type::Reference                            *)
+| TyWrap (elem : ty)                                   (* Type::Array / Slice / Group / Paren / Ptr  *)
+| TyTuple (elems : list ty)                            (* Type::Tuple                                *)
+| TyBareFn (inputs : list ty) (output : option ty)     (* Type::BareFn                               *)
+| TyTraitObject (bounds : list bound)                  (* Type::TraitObject                          *)
+| TyOther                                              (* ImplTrait, Infer, Macro, Never, Verbatim   *)
+with seg := Seg (name : ident) (args : pargs)          (* PathSegment                                *)
+with pargs :=
+| PNone
+| PAngle (l : list garg)                               (* `<..>`                                     *)
+| PParen (inputs : list ty) (output : option ty)       (* `(A, B) -> C`                              *)
+with garg :=
+| GType (t : ty)                                       (* GenericArgument::Type                      *)
+| GAssocType (t : ty)                                  (* GenericArgument::AssocType `X = T`         *)
+| GConstraint (i : ident)                              (* GenericArgument::Constraint `X: ..`        *)
+| GOther                                               (* Lifetime, Const, AssocConst                *)
+with bound :=
+| BTrait (path : list seg)                             (* TypeParamBound::Trait                      *)
+| BLifetime.                                           (* TypeParamBound::Lifetime (and others)      *)
+
+Definition memb (i : ident) (ps : list ident) : bool := existsb (Nat.eqb i) ps.
+
+(* utils.rs:1265-1356 is_type_parameter_used_in_type (`ps` = the type parameters of the item);
+   `used_seg`/`used_pargs`/`used_garg` are the closure `used_in_path` (:1269-1300) *)
+Fixpoint used_ty (ps : list ident) (t : ty) {struct t} : bool :=
+  match t with
+  | TyPath q segs =>
+      (match q with Some qt => used_ty ps qt | None => false end)          (* :1304-1308 *)
+      || (match segs with Seg n _ :: _ => memb n ps | [] => false end)     (* :1310-1314, FIRST segment *)
+      || existsb (used_seg ps) segs                                        (* :1316 *)
+  | TyRef e => used_ty ps e                                                (* :1319-1321 *)
+  | TyWrap e => used_ty ps e                                               (* :1323-1329 *)
+  | TyTuple es => existsb (used_ty ps) es                                  (* :1331-1334 *)
+  | TyBareFn ins out =>                                                    (* :1336-1345 *)
+      existsb (used_ty ps) ins
+      || (match out with Some o => used_ty ps o | None => false end)
+  | TyTraitObject bs => existsb (used_bound ps) bs                         (* :1347-1352 *)
+  | TyOther => false                                                       (* :1354 *)
+  end
+with used_seg (ps : list ident) (s : seg) {struct s} : bool :=
+  match s with Seg _ a => used_pargs ps a end
+with used_pargs (ps : list ident) (a : pargs) {struct a} : bool :=
+  match a with
+  | PNone => false
+  | PAngle l => existsb (used_garg ps) l
+  | PParen ins out =>
+      existsb (used_ty ps) ins
+      || (match out with Some o => used_ty ps o | None => false end)
+  end
+with used_garg (ps : list ident) (g : garg) {struct g} : bool :=
+  match g with
+  | GType t => used_ty ps t
+  | GAssocType t => used_ty ps t
+  | GConstraint i => memb i ps
+  | GOther => false
+  end
+with used_bound (ps : list ident) (b : bound) {struct b} : bool :=
+  match b with
+  | BTrait path => existsb (used_seg ps) path       (* only `used_in_path`: no first-segment test *)
+  | BLifetime => false
+  end.
+
+(* utils.rs:1255-1263 get_if_type_parameter_used_in_type: the type that receives the bound; one
+   layer of reference is stripped *)
+Definition strip_reference (t : ty) : ty := match t with TyRef e => e | _ => t end.
+Definition get_if_type_parameter_used_in_type (ps : list ident) (t : ty) : option ty :=
+  if used_ty ps t then Some (strip_reference t) else None.
+
+(* error.rs:365-379 is_type_path_ends_with_segment: a path type whose LAST segment is `tail` and
+   carries no arguments (a path without segments does not exist in syn; it is `false` here) *)
+Definition is_type_path_ends_with_segment (t : ty) (tail : ident) : bool :=
+  match t with
+  | TyPath _ segs =>
+      match rev segs with
+      | Seg n PNone :: _ => Nat.eqb n tail
+      | _ => false
+      end
+  | _ => false
+  end.
+
+(* the identifiers the walk looks at (specification side): the first segment of every path TYPE,
+   the names of `X: ..` constraints, recursively through every position the walk descends into *)
+Fixpoint idents_ty (t : ty) {struct t} : list ident :=
+  match t with
+  | TyPath q segs =>
+      (match q with Some qt => idents_ty qt | None => [] end)
+      ++ (match segs with Seg n _ :: _ => [n] | [] => [] end)
+      ++ flat_map idents_seg segs
+  | TyRef e => idents_ty e
+  | TyWrap e => idents_ty e
+  | TyTuple es => flat_map idents_ty es
+  | TyBareFn ins out => flat_map idents_ty ins ++ (match out with Some o => idents_ty o | None => [] end)
+  | TyTraitObject bs => flat_map idents_bound bs
+  | TyOther => []
+  end
+with idents_seg (s : seg) {struct s} : list ident :=
+  match s with Seg _ a => idents_pargs a end
+with idents_pargs (a : pargs) {struct a} : list ident :=
+  match a with
+  | PNone => []
+  | PAngle l => flat_map idents_garg l
+  | PParen ins out => flat_map idents_ty ins ++ (match out with Some o => idents_ty o | None => [] end)
+  end
+with idents_garg (g : garg) {struct g} : list ident :=
+  match g with
+  | GType t => idents_ty t
+  | GAssocType t => idents_ty t
+  | GConstraint i => [i]
+  | GOther => []
+  end
+with idents_bound (b : bound) {struct b} : list ident :=
+  match b with
+  | BTrait path => flat_map idents_seg path
+  | BLifetime => []
+  end.
+
+(* a concrete field and its abstraction *)
+Definition ty_Backtrace : ident := 2.                 (* the identifier `Backtrace` *)
+Record cfield := mkCField {
+  c_name : option ident;
+  c_ty : ty;
+  c_source : option bool;
+  c_backtrace : option bool;
+  c_ignore : bool }.
+Definition abstract_field (ps : list ident) (c : cfield) : field :=
+  mkField (c_name c)
+          (is_type_path_ends_with_segment (c_ty c) ty_Backtrace)
+          (used_ty ps (c_ty c))
+          (c_source c) (c_backtrace c) (c_ignore c).
 
 (* ------------------------------------------------------------------ entry point of the tie *)
 
@@ -494,6 +812,37 @@ Definition run_enum_case (ign : bool) (sh : shape) (fs : list field)
   | Err => (OErr, None, None)
   | Panic => (OPanic, None, None)
   end.
+
+(* everything about one struct / variant from ONE expansion:
+   (outcome, (selection, returned field, bound), (backtrace in all-space, provide_ref target, forward
+   target), (documented source, backtrace, provide)) *)
+Definition run_full (k : kind) (sh : shape) (fs : list field)
+  : outcome * (option nat * option nat * option nat) * (option nat * option nat * option nat)
+    * (doc (option nat) * doc (option nat) * doc (option nat * option nat)) :=
+  let d := (documented_source sh fs, documented_backtrace sh fs, documented_provide sh fs) in
+  match expand k sh fs with
+  | Ok x => (OOk, (x_sel x, returned_field x, x_bound x),
+             (option_map (to_all fs) (x_bsel x), fst (provided x), snd (provided x)), d)
+  | Err => (OErr, (None, None, None), (None, None, None), d)
+  | Panic => (OPanic, (None, None, None), (None, None, None), d)
+  end.
+
+(* provide() of a whole enum: (has fn, wildcard, exhaustive), per variant what it offers *)
+Definition run_enum_provide (vs : list variant)
+  : outcome * (bool * bool * bool) * list (option nat * option nat) :=
+  match render_enum_provide vs with
+  | Ok f => (OOk,
+             (match f with NoProvideFn => false | MatchSelfProvide _ _ => true end,
+              match f with NoProvideFn => false | MatchSelfProvide _ w => w end,
+              provide_match_exhaustive f (length vs)),
+             map (enum_provide_fn_returns f) (seq 0 (length vs)))
+  | Err => (OErr, (false, false, true), [])
+  | Panic => (OPanic, (false, false, true), [])
+  end.
+
+(* the two type predicates and the bounded type *)
+Definition run_type (ps : list ident) (t : ty) : option ty * bool :=
+  (get_if_type_parameter_used_in_type ps t, is_type_path_ends_with_segment t ty_Backtrace).
 
 (* a whole enum: (outcome, (has `fn source`, wildcard arm, exhaustive), what `source()` returns on
    each variant, bounds) *)
@@ -534,7 +883,8 @@ Definition expand_old (k : kind) (sh : shape) (fs : list field) : res expansion 
             | Struct => render_source_as_struct fs (p_source p)
             | Variant => Ok (render_source_as_enum_variant_match_arm_old fs (p_source p))
             end) (fun code =>
-  Ok (mkExpansion (p_source p) code (p_bound p)))).
+  Ok (mkExpansion (p_source p) code (p_bound p) (p_backtrace p) NoProvide))).
+  (* provide() is not part of the historical variant *)
 
 (* the layouts on which the old code selected correctly:
      lengths_agree : the inference never looks at a length (named fields, or an explicit
